@@ -1,5 +1,5 @@
 """Single source of truth for MANIFEST.json (bin/mkmanifest)."""
-HOOK_COMMITS = ["1948070", "0be6ff1"]
+HOOK_COMMITS = ["1948070", "0be6ff1", "25ace7b"]
 NOTES = ("All checks: bin/check <id> quick|thorough.  Each run: srcfacts regenerates coq/Src from /repo, make re-checks the "
          "Coq development, the Go harness is rebuilt from /repo with -tags verif, cases are generated from VERIF_SEED, "
          "the implementation and the model are run on them and compared, the Coq specification predicate is evaluated on "
@@ -51,4 +51,15 @@ CHECKS["C17"] = {
  "note": "Trusted: Coq kernel, srcfacts, correspondence harness, extraction; the POSIX fragment sh_eval is a hand-written specification "
          "validated against dash/bash on every run; strconv.Quote modelled for 7-bit input only (dotenv compared on ASCII values)",
  "technique": "machine-checked proof in Coq + model/implementation correspondence check",
+}
+
+CHECKS["C16"] = {
+ "text": "Coq theorems over a model of createTemporaryFile(s)/removeTemporaryFiles and the RunE skeleton with a fault-injectable file "
+         "system: for every number of file entries, every fault plan and every child outcome, files hold the projected values, are "
+         "exported under their keys, are all removed on return unless their own Remove fails, and a k-th creation failure rolls back "
+         "and runs nothing (induction/invariants, no bounds); source-shape facts read by srcfacts; the real `esc run` command is driven "
+         "with an in-memory fault-injecting escFS/cmdExec through a verif hook and compared step by step on the exhaustive fault family",
+ "note": "Trusted: Coq kernel, srcfacts, correspondence harness (fake file system semantics for a failing Close: truncation), extraction. "
+         "Signals (SIGINT skips the deferred cleanup) and real file systems are outside the model.",
+ "technique": "machine-checked proof in Coq + model/implementation correspondence check (exhaustive fault enumeration)",
 }
